@@ -204,7 +204,7 @@ func TestRandomURLs(t *testing.T) {
 	}
 	rec := ev.New(t, prop, "urls-random", "rapid: SSH and Docker endpoints, both kinds, through url.Parse (raw strings) or as URL messages (API route), whose user / host / container are empty, plain, option-like (-l, -oProxyCommand=x, --user, --, -, ...), option-like behind brackets / quotes / white space / percent-encoding, or contain dashes, spaces and '='; Docker daemon parameters with option-like values; each accepted URL drives the real transport (Command+Run, Copy, agent.Dial; POSIX or Windows container) against recording fake ssh/scp/docker; "+rule)
 	_, listed := listedKnown()
-	ev.Check(t, rec, 800, 12000, func(rt *rapid.T) {
+	ev.Check(t, rec, 800, 5000, func(rt *rapid.T) {
 		c := genCase(rt)
 		if listed && classOf(c) == ClassLeadingDash {
 			rec.Excluded(ClassLeadingDash)
